@@ -34,7 +34,10 @@ THEOREMS = THEOREMS + [
     'FFVerif.TileAux.matrixPower_toMatrix', 'FFVerif.TileAux.matrixPower_eq_pow', 'FFVerif.TileAux.mdot_toMatrix',
     'FFVerif.TileAux.concatTau_eq_sum', 'FFVerif.TileAux.times_block', 'FFVerif.TileAux.propagators_block',
     'FFVerif.TileAux.liou_pow']
-LEAN_MODULES = ['FFVerif.Props.C04', 'FFVerif.Props.C04Tile']
+LEAN_MODULES = ['FFVerif.Props.C04', 'FFVerif.Props.C04Tile', 'FFVerif.Props.C04TileUnique']
+# module C04TileUnique: the capstones for an ARBITRARY own eigh output of the tiled / sequenced pulse
+THEOREMS = THEOREMS + [
+    'FFVerif.C04Tile.ofDiag_cm_eigh_independent', "FFVerif.C04Tile.periodic_cm_eq_tiled_from_scratch'", "FFVerif.C04Tile.concat_cm_eq_diag_from_scratch'"]
 RULES = ['correspondence: numeric.calculate_control_matrix_periodic vs the model\'s geometric '
          'series evaluator (B · Σ_{g<G} (e^{iωT} L)^g) on pulses with cached control matrix, '
          'G in {1,2,3,5,12,30}, frequencies at and around the singular points of 1 - e^{iωT}L '
